@@ -164,6 +164,37 @@ def ReshuffleStep (pre post : St) : Prop :=
   (∀ e ∈ post.va, post.va.count e ≤ (pre.va ++ pre.tr).count e) ∧
   (ids (post.tr ++ post.va)).Perm (ids (pre.va ++ pre.tr))
 
+/-- hold-out with the evaluator: the step relation plus the number of clears -/
+def HoldoutStepR {α} (p run : Nat) (hasEva : Bool) (pre post : Sets α) (clears : Nat) : Prop :=
+  HoldoutStep p run pre post ∧ clears = if run = 0 ∧ hasEva = true then 1 else 0
+
+/-- what an evaluator pass may change: only `difficulty` -/
+def key (e : Ex) : Nat × Nat := (e.id, e.age)
+def EvalRel (pre post : St) : Prop := pre.tr.map key = post.tr.map key ∧ pre.va.map key = post.va.map key
+
+/-- a reshuffle followed by evaluations of the new training frame (what a callback sees) -/
+def ReshuffleObs (pre post : St) : Prop :=
+  post.tr ≠ [] ∧ post.va ≠ [] ∧
+  (∀ e ∈ post.tr, e.age = 1) ∧
+  (∀ e ∈ post.va, post.va.count e ≤ (pre.va ++ pre.tr).count e) ∧
+  (ids (post.tr ++ post.va)).Perm (ids (pre.va ++ pre.tr))
+
+/-- from one after_generation callback to the next one of the same run, DSS with period `gap`
+    (`shake(g)`, re-evaluation, breeding) -/
+def GenObs (gap g : Nat) (pre post : St) : Prop :=
+  if g = 0 ∨ g % gap ≠ 0 then EvalRel pre post ∧ post.va = pre.va
+  else ReshuffleObs ⟨incAge pre.tr, incAge pre.va⟩ post
+
+/-- from the end of a run / the start of the search to the first callback of the next run, DSS
+    (`close`, metrics, `init`, evaluations, `shake(0)`) -/
+def FreshObs (pre post : St) : Prop :=
+  post.tr ≠ [] ∧ post.va ≠ [] ∧ (∀ e ∈ post.tr, e.age = 1) ∧ (∀ e ∈ post.va, e.age = 1 ∧ e.diff = 0) ∧
+  (ids (post.tr ++ post.va)).Perm (ids (pre.tr ++ pre.va))
+
+/-- from the last callback to the return of `search::run`, DSS (`close`, metrics) -/
+def EndObs (pre post : St) : Prop :=
+  post.tr = [] ∧ post.va.map key = (pre.va ++ pre.tr).map key
+
 inductive Call
   | init (run : Nat)
   | shake (gap g : Nat)
